@@ -45,7 +45,15 @@ ValueLattice ==
 PairLattice ==
     UNION {{SentCase(c, sv, "pair-lattice", F) : sv \in TwoAtATime(CommandTable[c].schema, F, TRUE)} : c \in {1, 2, 6, 10, 12}}
     \cup {SentCase(10, [CmReqMin EXCEPT !.subCommandParams = <<p>>], "pair-lattice-nested", F) : p \in TwoAtATime("CmParams", F, TRUE)}
-    \cup {SentCase(1, [McReqMin EXCEPT !.user = u], "pair-lattice-nested", F) : u \in TwoAtATime("User", F, TRUE)}
+    \cup {SentCase(1, [McReqMin EXCEPT !.user = u], "pair-lattice-nested", F) : u \in TwoAtATime("User", F, TRUE) \cup RelatedPairs("User", F, TRUE)}
+    \cup {SentCase(1, [McReqMin EXCEPT !.rp = r], "pair-lattice-nested", F) : r \in RelatedPairs("Rp", F, TRUE)}
+    \cup {SentCase(1, [McReqMin EXCEPT !.extensions = <<e>>], "pair-lattice-nested", F) : e \in TwoAtATime("McExt", F, TRUE)}
+    \cup {SentCase(2, [GaReqMin EXCEPT !.extensions = <<e>>], "pair-lattice-nested", F) : e \in TwoAtATime("GaExtIn", F, TRUE)}
+    \cup {SentCase(1, [McReqMin EXCEPT !.options = <<o>>, !.extensions = <<e>>], "pair-lattice-nested", F) :
+             o \in {AuthOptsFull, [rk |-> <<FALSE>>, up |-> <<TRUE>>, uv |-> <<FALSE>>]}, e \in {x \in TwoAtATime("McExt", F, TRUE) : TRUE}}
+    \* relations between two members of the same kind (equal, prefix, equal length)
+    \cup UNION {{SentCase(c, sv, "related-pair", F) : sv \in RelatedPairs(CommandTable[c].schema, F, TRUE)} : c \in {1, 2, 6, 10, 12}}
+    \cup {SentCase(2, [GaReqMin EXCEPT !.extensions = <<[GaExtInMin EXCEPT !.hmacSecret = <<h>>]>>], "related-pair-nested", F) : h \in RelatedPairs("HmacIn", F, TRUE)}
     \cup {SentCase(2, [GaReqMin EXCEPT !.extensions = <<[GaExtInMin EXCEPT !.hmacSecret = <<h>>]>>], "pair-lattice-nested", F) : h \in TwoAtATime("HmacIn", F, TRUE)}
 
 \* a full-length descriptor list with one different entry at every position
